@@ -50,7 +50,20 @@ def rule_from_reference(ctx: Ctx):
     ok = False
     if len(outer) == 1:
         u = norm(outer[0].target)
-        inner = [L for L in outer[0].body if isinstance(L, ast.For) and norm(L.iter) == f.params[1]]
+        # the requested annotators: the parameter (after the integer form has been expanded in place) or a local that is the generated names for an
+        # integer request and the parameter itself otherwise
+        p_new = f.params[1]
+
+        def requested(e) -> bool:
+            if norm(e) == p_new:
+                return True
+            if not isinstance(e, ast.Name):
+                return False
+            defs = assigned_value(f.node, e.id)
+            return len(defs) == 2 and {("gen" if isinstance(d, ast.ListComp) and norm(d.generators[0].iter) == f"range({p_new})" else norm(d)) for d in defs} == {"gen", p_new} and \
+                all(any(isinstance(t, ast.Call) and norm(t) == f"isinstance({p_new}, int)" for t, _ in conditions_at(f.node, s_)) for s_ in walk_no_nested(f.node)
+                    if isinstance(s_, ast.Assign) and norm(s_.targets[0]) == e.id)
+        inner = [L for L in outer[0].body if isinstance(L, ast.For) and requested(L.iter)]
         if len(inner) == 1 and len(outer[0].body) == 1:
             a = norm(inner[0].target)
             adds = _calls(inner[0], cv, "add")
@@ -59,7 +72,7 @@ def rule_from_reference(ctx: Ctx):
     ctx.check(ok, "R-C19-1", f, outer[0] if outer else None, "every unit of the reference annotator is copied (same segment, same label) to every requested annotator",
               bad_detail="corpus_from_reference does not copy each reference unit to each new annotator unchanged", key="copy-all")
     names = [i for i in walk_no_nested(f.node) if isinstance(i, ast.If) and norm(i.test) == f"isinstance({f.params[1]}, int)"]
-    okn = len(names) == 1 and isinstance(names[0].body[0], ast.Assign) and isinstance(names[0].body[0].value, ast.ListComp) and \
+    okn = len(names) == 1 and names[0].body and isinstance(names[0].body[0], ast.Assign) and isinstance(names[0].body[0].value, ast.ListComp) and \
         norm(names[0].body[0].value.generators[0].iter) == f"range({f.params[1]})" and isinstance(names[0].body[0].value.elt, ast.JoinedStr)
     ctx.check(okn, "R-C19-1", f, names[0] if names else None, "an integer request yields that many distinct generated annotator names", key="names")
     rets = [r for r in walk_no_nested(f.node) if isinstance(r, ast.Return)]
@@ -143,7 +156,8 @@ def rule_perturbations(ctx: Ctx):
             gi2 = enclosing(O, ad[0], (ast.If,))
             _x = lambda e: xnorm(f.node, e)
             oks = len(sdef) == 1 and _x(sdef[0].value) in (f"np.random.choice({cont}._annotations[{a}])", f"np.random.choice({cont}[{a}])") and \
-                len(gi2) == 1 and _x(gi2[0].test) in (f"len({cont}._annotations[{a}]) == 0", f"len({cont}[{a}]) == 0") and \
+                len(gi2) == 1 and _x(gi2[0].test) in (f"len({cont}._annotations[{a}]) == 0", f"len({cont}[{a}]) == 0", f"not {cont}._annotations[{a}]", f"not {cont}[{a}]",
+                                                      f"not len({cont}._annotations[{a}])", f"len({cont}._annotations[{a}]) < 1") and \
                 [norm(x) for x in ad[0].args] == [a, f"{sec}.segment", f"{sec}.annotation"] and not any(ad[0] is x for x in ast.walk(I))
         ctx.check(oks and len(ad) == 1, "R-C19-2", f, ad[0] if ad else O, "the only addition re-adds one of the annotator's own former units when all were removed: no annotator ends up empty, nothing new appears",
                   bad_detail="false negatives add something else than the 'security' unit of the same annotator, guarded by emptiness", key="fneg-security")
@@ -384,6 +398,31 @@ def rule_driver(ctx: Ctx):
     ctx.check(len(rets) >= 1 and all(norm(r.value) == cv for r in rets), "R-C19-4", f, rets[0] if rets else None, "the shuffled corpus is returned", key="return")
 
 
+def rule_holds_reference(ctx: Ctx):
+    """"the reference" every clause speaks of is the continuum the caller handed over, as it is when a corpus is generated: the tool keeps that very
+    object (a snapshot taken at construction is a recognised shape with a wrong slot: units added to or removed from the reference afterwards are
+    missing from / still in what magnitude 0 and include_ref copy)"""
+    f = ctx.model.functions.get(f"{CLS}.__init__")
+    if f is None or len(f.params) < 3:
+        ctx.undecided("R-C19-1", None, None, f"{CLS}.__init__(self, magnitude, reference_continuum, ...) not found", construct="__init__", key="holds-reference")
+        return
+    ctx.functions_analysed.add(f.qualname)
+    sts = [s for s in walk_no_nested(f.node) if isinstance(s, ast.Assign) and norm(s.targets[0]) == f"{f.self_name}._reference_continuum"]
+    ref_params = [p_ for p_ in f.params[1:] if "reference" in p_ or "continuum" in p_]
+    if len(sts) != 1 or not ref_params:
+        ctx.undecided("R-C19-1", f, None, "the constructor does not store the reference exactly once (not a verdict)", key="holds-reference")
+        return
+    v = sts[0].value
+    if isinstance(v, ast.Name) and v.id in ref_params:
+        ctx.ok("R-C19-1", f, sts[0], "the tool keeps the reference continuum it is given (the object itself)", key="holds-reference")
+    elif isinstance(v, ast.Call) and ((isinstance(v.func, ast.Attribute) and v.func.attr in ("copy", "__deepcopy__", "__copy__") and norm(v.func.value) in ref_params) or
+                                     (dotted(v.func) in ("deepcopy", "copy.deepcopy", "copy.copy", "copy") and v.args and norm(v.args[0]) in ref_params)):
+        ctx.bad("R-C19-1", f, sts[0], f"the tool keeps `{norm(v)}`, a snapshot of the reference taken at construction: a corpus generated after the caller has added or removed units "
+                f"copies (magnitude 0, include_ref) and perturbs the continuum as it was then, not the reference", key="holds-reference")
+    else:
+        ctx.undecided("R-C19-1", f, sts[0], f"the tool keeps `{norm(v)}` as its reference, not the argument itself (not a verdict)", key="holds-reference")
+
+
 def run(ctx: Ctx):
     ctx.clauses += [
         "R-C19-1 corpus_from_reference copies every reference unit (segment, label) to every requested annotator",
@@ -396,6 +435,7 @@ def run(ctx: Ctx):
                         "the number of false positives uses len(reference) = number of annotators (documented as 'constant & proportional to the magnitude'; not part of the property)"]
     ctx.assumptions += ["Continuum.add / remove behave as in C13", "reference aliasing is C14's concern"]
     rule_from_reference(ctx)
+    rule_holds_reference(ctx)
     check_annotator_key(ctx, "R-C19-1")       # "exactly the requested annotators": the tool creates them through continuum.add(name, ...)
     from .c13 import add_guard_obligation
     add_guard_obligation(ctx, "R-C19-2")      # "only positive-duration units": every perturbation inserts through add(), whose guard refuses empty segments
